@@ -91,6 +91,36 @@ def tri_from_json(js):
     return Triangle([cell_from_json(j) for j in js])
 
 
+# ------------------------------------------------------------------ grouping independent of Metadata.__eq__/__hash__
+def _norm_mv(v):
+    """Python == on metadata values, made structural: numbers (bool included) by exact value"""
+    from fractions import Fraction
+
+    if v is None:
+        return ("none",)
+    if isinstance(v, (bool, np.bool_, int, np.integer)):
+        return ("n", Fraction(int(v)))
+    if isinstance(v, (float, np.floating)):
+        return ("n", Fraction(float(v))) if v == v and abs(v) != float("inf") else ("f", repr(float(v)))
+    if isinstance(v, str):
+        return ("s", v)
+    if isinstance(v, datetime.date):
+        return ("d", v.isoformat())
+    return ("o", repr(v))
+
+
+def meta_key(m):
+    """What Metadata == means (attribute-wise ==, dicts order-insensitive, 1 == 1.0 == True), computed
+    WITHOUT calling Metadata.__eq__ / __hash__: the oracles group cells into slices with this."""
+    return (m.risk_basis, m.country, m.currency, m.reinsurance_basis, m.loss_definition, _norm_mv(m.per_occurrence_limit),
+            frozenset((k, _norm_mv(v)) for k, v in m.details.items()),
+            frozenset((k, _norm_mv(v)) for k, v in m.loss_details.items()))
+
+
+def same_meta(a, b):
+    return meta_key(a) == meta_key(b)
+
+
 # ------------------------------------------------------------------ compact Coq printing
 def cz(n):
     return ct.zlit(int(n))
@@ -352,6 +382,22 @@ class AccGen:
                 if r.random() < 0.5:
                     kw["loss_details"] = {"cov": r.choice(["a", "b"])}
                 out.append(Metadata(**kw))
+            return out
+        if n >= 2 and r.random() < 0.12:  # family M: siblings differing ONLY by a hash-colliding value
+            base = dict(self.g.base_meta_kwargs())
+            vals = r.choice([[-1, -2], [-2, -1], [-1.0, -2.0], [0, 2**61 - 1], [-1, -2, 0], [2**61 - 1, 0, -2, -1]])
+            where = r.choice(["details", "loss_details", "per_occurrence_limit"])
+            out = []
+            for i in range(min(n, len(vals))):
+                kw = {k: (dict(v) if isinstance(v, dict) else v) for k, v in base.items()}
+                if where == "per_occurrence_limit":
+                    kw[where] = vals[i]
+                else:
+                    d = dict(kw.get(where) or {})
+                    d["layer"] = vals[i]
+                    kw[where] = d
+                out.append(Metadata(**kw))
+            r.shuffle(out)
             return out
         if r.random() < 0.2:  # everything shared except several detail keys, some keys missing
             out = []
